@@ -113,6 +113,10 @@ func NewWorld(cfg FixtureCfg) *World {
 		_, err := mckeeper.NewMsgServerImpl(app.MasterchefKeeper).AddExternalRewardDenom(ctx, &mctypes.MsgAddExternalRewardDenom{Authority: gov, RewardDenom: "uatom", MinAmount: math.NewInt(1), Supported: true})
 		return err
 	})
+	w.MustGov("ext reward denom 2", func(ctx sdk.Context) error {
+		_, err := mckeeper.NewMsgServerImpl(app.MasterchefKeeper).AddExternalRewardDenom(ctx, &mctypes.MsgAddExternalRewardDenom{Authority: gov, RewardDenom: "uelys", MinAmount: math.NewInt(1), Supported: true})
+		return err
+	})
 	w.MustGov("vest now", func(ctx sdk.Context) error {
 		p := app.CommitmentKeeper.GetParams(ctx)
 		p.EnableVestNow = true
